@@ -57,11 +57,13 @@ def errorScore : DialErr → Int
   | _ => scoreFailure
 
 /-- `is_global_multiaddr` on the addresses the harness uses: `ip4 n` with `n ≥ 256` stands for a
-public address, smaller `n` for `10.0.0.n`, `ip6 n` for a unique-local address, DNS names count as
-public. -/
+public address, smaller `n` for `10.0.0.n` (`0.0.0.0` for 0), `n ≥ 99990` for the boundary targets
+(99999 broadcast, 99998 loopback, 99996 link-local: not global; 99997 = the multicast address 224.0.0.1,
+which `IpNetwork::is_global` counts as global — observed on the real code), `ip6 n` for a unique-local
+address, DNS names count as public. -/
 def isGlobal : Multiaddr → Bool
   | [] => false
-  | .ip4 n :: _ => decide (256 ≤ n)
+  | .ip4 n :: _ => decide ((256 ≤ n ∧ n < 99990) ∨ n = 99997)
   | .ip6 _ :: _ => false
   | .dns _ :: _ => true
   | .dns4 _ :: _ => true
@@ -241,6 +243,20 @@ def dialAddrTransport (a : Multiaddr) : Option Transport :=
       | _ => none
     else none
   | [] => none
+
+/-- The SYNCHRONOUS part of `TcpTransport::dial` (`src/transport/tcp/mod.rs`): the address is parsed
+(`TcpAddress::multiaddr_to_socket_address`); resolving, connecting and negotiating happen in the future
+the call queues. `false` = the call returns `Err` — which `dial_address` (it has set the peer `Dialing`
+by then and returns with `?` before `pending_connections.insert`) would turn into a peer that is
+`Dialing` forever. `dialAddress` below has no such branch: `Props/C05.lean`
+(`transport_dial_total_on_accepted_shapes`) proves it unreachable for every address the shape check
+lets through, and the adapter runs the real `TcpTransport::dial`/`open` behind the scripted transport,
+so a synchronous refusal added to the real code breaks the correspondence. -/
+def tcpDialSync (a : Multiaddr) : Bool := (tcpParse a).isSome
+
+/-- The synchronous part of `TcpTransport::open`: nothing is checked (every address is parsed inside
+the future), the call returns `Ok` for every list. -/
+def tcpOpenSync (_addrs : List Multiaddr) : Bool := true
 
 /-- `TransportManager::dial_address`. -/
 def dialAddress (s : Mgr) (a : Multiaddr) : Mgr × Out :=
